@@ -35,6 +35,7 @@ def model_topology():
         r = top.add_residue(rn, chains[ch])
         for nm in names:
             top.add_atom(nm, E.get_by_symbol(nm[0]), r)
+    top.create_standard_bonds()
     return top
 
 
@@ -51,7 +52,10 @@ def table():
             raise RuntimeError("model topology: unexpected is_sidechain for %s" % a)
         if abs(a.element.mass * 100 - row["m"]) > 0.6:
             raise RuntimeError("model topology: mass table off for %s" % a)
-    return dict(atoms=atoms, residues=residues)
+    bonds = sorted([min(a.index, b.index) + 1, max(a.index, b.index) + 1] for a, b in top.bonds)
+    if len(bonds) < 30:
+        raise RuntimeError("model topology: standard bonds were not created")
+    return dict(atoms=atoms, residues=residues, bonds=bonds)
 
 
 def gen_cases(seed, n, tab):
@@ -76,7 +80,14 @@ def gen_cases(seed, n, tab):
             pos = pos + rs.randint(-1, 2, size=(na, 3)) @ cm
         prs = rs.choice(na, size=(40, 2))
         prs = [[int(a) + 1, int(b) + 1] for a, b in prs if a != b]
-        out.append(dict(id=i, pos=pos.tolist(), cell=cell, periodic=periodic, pairs=[list(p) for p in GIVEN], rdfpairs=prs))
+        if i % 3 == 0:
+            sel = list(range(1, na + 1))
+        else:
+            sel = sorted(int(x) + 1 for x in rs.choice(na, size=rs.randint(4, 25), replace=False))
+            if i % 3 == 2:
+                rs.shuffle(sel)
+        q = rs.randint(-2, 3, size=na); q[-1] -= q.sum()
+        out.append(dict(id=i, sel=[int(x) for x in sel], charges=[int(x) for x in q], pos=pos.tolist(), cell=cell, periodic=periodic, pairs=[list(p) for p in GIVEN], rdfpairs=prs))
     return out
 
 
@@ -151,6 +162,24 @@ def _check(task):
         probs.append("compute_rdf: histogram counts / shell normalisation differ (got %s expected %s)" % (np.round(cnt, 3).tolist(), exp["rdf"]))
     if np.abs(r - (np.arange(10) + 1.0) * G).max() > 1e-6:
         probs.append("compute_rdf: bin centres are not the middles of the bins")
+    # ---- DRID: which partners (selection, bonded exclusion, order of atom_indices), then the three moments in doubles ----
+    sel = np.array(case["sel"]) - 1
+    try:
+        dr = np.asarray(md.compute_drid(t, atom_indices=sel), dtype=np.float64)[0].reshape(len(sel), 3)
+        for kk, row in enumerate(exp["drid"]):
+            xr = 1.0 / (np.sqrt(np.array([d2 for _, d2 in row], dtype=np.float64)) * G)
+            m = xr.mean(); want = np.array([m, np.sqrt(((xr - m) ** 2).mean()), np.cbrt(((xr - m) ** 3).mean())])
+            if np.abs(dr[kk] - want).max() > 2e-4 * (1 + np.abs(want).max()):
+                probs.append("compute_drid: moments of atom %d (entry %d of atom_indices) differ from those over its %d non-bonded selected partners" % (sel[kk], kk, len(row)))
+                break
+    except Exception as e:  # noqa
+        probs.append("compute_drid raised %s" % type(e).__name__)
+    # ---- dipole moment of a neutral charge set (no cell: plain positions) ----
+    if not per:
+        t0 = md.Trajectory(t.xyz, top)
+        dm = md.dipole_moments(t0, np.array(case["charges"], dtype=float))[0]
+        if np.abs(dm - np.array(exp["dipole"]) * G).max() > 2e-4 * (1 + np.abs(dm).max()):
+            probs.append("dipole_moments differs from sum q x for a neutral system")
     dens = md.density(t, masses=w / 100.0)[0]
     if abs(dens - exp["mass"] / 100.0 / (exp["vol"] * G ** 3) * 1.6605387823355087) > 1e-4 * dens:
         probs.append("density differs from mass / volume")
@@ -204,6 +233,6 @@ def run(ctx):
     cov = dict(traces_validated_against_impl=len(cases) * 16, configurations=len(cases), replays_failing=nfail, samples=[dict(pos=cases[0]["pos"][:6], expected_contacts_all=exp[cases[0]["id"]]["all"][0])],
                explanation="random lattice placements (plain and scattered over periodic images, orthorhombic and triclinic cells) of an 11-residue, two-chain model topology (glycines, waters without CA, "
                            "hydrogens, unequal residue sizes); TLC evaluates Descriptors.tla exactly; replayed: compute_contacts for 'all' and explicit pairs in all five schemes (labels and minima), squareform, "
-                           "centre of mass / geometry, Rg (plain and mass weighted), gyration tensor, principal moments, asphericity, acylindricity, relative shape anisotropy, RDF counts and normalisation, density")
-    return ctx.finish(cov, "model_checking", ["not covered (transcendental, no exact discrete form): DRID moments, nematic order, Karplus J-couplings, soft-min contacts, dipole moments, inertia tensor",
+                           "centre of mass / geometry, Rg (plain and mass weighted), gyration tensor, principal moments, asphericity, acylindricity, relative shape anisotropy, RDF counts and normalisation, density, DRID (partner bookkeeping + moments), dipole moment of neutral charge sets")
+    return ctx.finish(cov, "model_checking", ["not covered (no exact discrete form / 32-bit overflow): nematic order, Karplus J-couplings, soft-min contacts, inertia tensor; DRID moments are evaluated in doubles from the exact squared distances of the spec's partner sets",
                                               "element masses rounded to 0.01 dalton in the specification (centre of mass compared to 3e-4 nm)"])
